@@ -154,11 +154,13 @@ func (c *Cluster) Kill(i int) bool {
 	}
 	n.Alloc.Stop()
 	// the allocator loop may still be loading a partition's group: kill whatever is registered until nothing appears any more
-	for quiet := 0; quiet < 3; {
+	// (the loop has no exit signal the harness could wait for: a load it was in the middle of registers its group a
+	// moment later, so nothing must have appeared for 6 ms)
+	for quiet := 0; quiet < 20; {
 		groups := n.Tr.VerifGroups()
 		if len(groups) == 0 {
 			quiet++
-			time.Sleep(150 * time.Microsecond)
+			time.Sleep(300 * time.Microsecond)
 			continue
 		}
 		quiet = 0
